@@ -29,6 +29,14 @@ impl FileSystemState {
             artifact_directory.to_path_buf(),
         ));
 
+        if state.nested_files.is_empty() {
+            // Creating a Type/field directory also creates the artifact directory.
+            // Without any, the root files below would be written into a missing directory.
+            operations.push(FileSystemOperation::CreateDirectory(
+                artifact_directory.to_path_buf(),
+            ));
+        }
+
         for (new_server_object_entity_name, new_selectable_map) in &state.nested_files {
             let new_server_object_path = artifact_directory.join(new_server_object_entity_name);
 
